@@ -185,7 +185,9 @@ func (r *Reconciler) reconcileInitialize(ctx context.Context, transaction *confi
 					if err := r.updateTransactionStatus(ctx, transaction); err != nil {
 						return controller.Result{}, err
 					}
-					return controller.Result{}, nil
+					return controller.Result{
+						Requeue: controller.NewID(transaction.Index + 1),
+					}, nil
 				}
 
 				switch targetDetails := targetTransaction.Details.(type) {
@@ -242,7 +244,9 @@ func (r *Reconciler) reconcileInitialize(ctx context.Context, transaction *confi
 					if err := r.updateTransactionStatus(ctx, transaction); err != nil {
 						return controller.Result{}, err
 					}
-					return controller.Result{}, nil
+					return controller.Result{
+						Requeue: controller.NewID(transaction.Index + 1),
+					}, nil
 				}
 			}
 			transaction.Status.Proposals = proposals
